@@ -519,14 +519,16 @@ def run(plan, tier="quick") -> RunResult:
 
         sim0 = _reference(sc, res, h, record=True)
         calls = [(idx, kind, rel) for idx, kind, rel, _s, _t in sim0.events if idx >= 0]
+        mode_of = {idx: size for idx, kind, _r, size, _t in sim0.events if kind == "open"}
         res.config = "fault-free" if not calls else "faults"
         for idx, kind, rel in calls:
             _one(sc, {idx: {"kind": "kill"}}, res, h)
             for en in applicable(kind, plan["errnos"], tier):
-                if kind == "open" and plan["cmp"] == ".zip" and role_of(rel, sc.dest_name) == "dest":
-                    # ZipFile(mode="a") retries a failed "r+b" open as "w+b";
-                    # one injected failure followed by a successful truncating
-                    # open is not a sequence a real file system produces.
+                if kind == "open" and mode_of.get(idx) == "r+":
+                    # ZipFile(mode="a") probes with an "r+b" open and, if that
+                    # fails, retries as a truncating "w+b" open; one injected
+                    # failure followed by a successful truncating open is not
+                    # a sequence a real file system produces.
                     continue
                 _one(sc, {idx: {"kind": "oserror", "errno": en}}, res, h)
             if kind == "write":
@@ -642,7 +644,7 @@ EVIDENCE = {
         "a kill is simulated in-process: after the kill point every gated call raises without effect; a post-unwind snapshot diff proves nothing reached the disk",
         "only errnos the real call can return are injected (table in simos.APPLICABLE_ERRNOS)",
         "Table.write to a .bz2 path is not generated (it writes gzip data to <path>.gz: functional quirk outside C19)",
-        "for zip archives no OSError is injected into the open of the archive itself (ZipFile's 'a' mode retries as a truncating open, an errno sequence no real file system produces)",
+        "no OSError is injected into an 'r+' open (only ZipFile's append-mode probe uses one; it retries a failed probe as a truncating open, an errno sequence no real file system produces)",
     ],
     "expected_probes": ["kill", "dest-old-after-killed", "dest-new-after-killed", "dest-old-after-raised",
                         "handled-failure-without-injected-fault"],
